@@ -2900,6 +2900,15 @@ def _compute_total_coloring_context(problem, coloring_info):
         problem._metadata['randomize_subjacs'] = saved_rand_subjacs
         problem._metadata['randomize_seeds'] = saved_rand_seeds
 
+        # The linear vectors now hold solutions computed with randomized sub-jacobians (inf or nan
+        # if an iterative linear solver diverged on them).  Don't leave them behind as the initial
+        # guess of the next linear solve.
+        vectors = getattr(problem.model, '_vectors', None)
+        if vectors:
+            for kind in ('input', 'output', 'residual'):
+                if 'linear' in vectors.get(kind, ()):
+                    vectors[kind]['linear'].set_val(0.0)
+
 
 def _get_total_jac_sparsity(prob, num_full_jacs=_DEF_COMP_SPARSITY_ARGS['num_full_jacs'],
                             tol=_DEF_COMP_SPARSITY_ARGS['tol'],
